@@ -254,8 +254,15 @@ def cases_for(rng, n, ctx, tmp):
                     near.tag = firsto[0].tag
                     cells = cells + [twin, near]
                 df = pd.DataFrame({'idx': list(range(len(cells))), 'label': ['r%d' % k for k in range(len(cells))], 'data': cells})
-                if all(isinstance(c, pe.Obs) for c in cells):
-                    pass
+                # the index of a frame is a label, not a position: frames that were filtered, re-indexed or concatenated are frames all the same
+                variant = (i // len(kinds)) % 4
+                if variant == 1:
+                    df.index = range(1, len(cells) + 1)
+                elif variant == 2:
+                    df.index = [k % 2 for k in range(len(cells))]
+                elif variant == 3:
+                    df.index = range(3, len(cells) + 3)
+                cid += '-ix%d' % variant
                 before = doc_any([list(df['idx']), list(df['label']), list(df['data'])])
                 dn0 = analysis_numbers(list(df['data']))
                 x = list(df['data'])
@@ -301,6 +308,19 @@ def cases_for(rng, n, ctx, tmp):
         ctx.nontrivial.add((kind, transport, gz, indent, i))
         if len(ctx.samples) < 4:
             ctx.sample({'id': cid, 'structure': kind, 'transport': transport, 'gz': gz, 'indent': indent})
+    for j in range(4):
+        # an observable assembled from reweighted pieces, one per replica (the usual way to a multi-replica reweighted observable)
+        w = pe.Obs([1.0 + 0.1 * rng.normal(size=20), 1.0 + 0.1 * rng.normal(size=16)], ['mrg|r1', 'mrg|r2'])
+        parts = [pe.Obs([rng.normal(size=20)], ['mrg|r1']), pe.Obs([rng.normal(size=16)], ['mrg|r2'])]
+        m = _quiet(lambda: pe.merge_obs(pe.reweight(w, parts)))
+        if isinstance(m, Exception):
+            cases.append({'id': 'rt-merged-%d' % j, 'ev': 'roundtrip', 'fmt': 'merge of reweighted pieces', 'before': doc_any(parts[0]), 'after': _after(m)})
+            continue
+        m = m * 2.0 if j % 2 else m
+        before = doc_any(m)
+        s_ = _quiet(lambda: pe.input.json.create_json_string([m], indent=0))
+        y = s_ if isinstance(s_, Exception) else _quiet(lambda: pe.input.json.import_json_string(s_, verbose=False))
+        cases.append({'id': 'rt-merged-%d' % j, 'ev': 'roundtrip', 'fmt': 'json-string', 'before': before, 'after': _after(y)})
     return cases
 
 
